@@ -65,6 +65,7 @@ def plan_message_faults(base, clean, reading, tier, rng, directed=True):
         out.extend(faults.directed_substitutions(sp, enc, clean, hexb, all_values=(tier == "thorough")))
     out.extend(faults.numeral_faults(sp, enc))
     out.extend(faults.typed_token_faults(sp, enc))
+    out.extend(faults.pds_tag_faults(sp, enc))
     if hexb:
         out.extend(faults.hex_bitmap_pair_faults(sp))
     out.extend(faults.splice_faults(clean, sp, enc))
